@@ -5,7 +5,9 @@ per-program translation validation (harness/src/bin/c11.rs).
 -/
 import KotoVerif.Model.FmtOptions
 import KotoVerif.Model.SrcSlice
+import KotoVerif.Model.Layout
 import KotoVerif.Lemmas.C11
+import KotoVerif.Lemmas.C11Layout
 
 namespace KotoVerif.C11
 open KotoVerif.FmtOptions KotoVerif.SrcSlice
@@ -55,6 +57,64 @@ excludes that combination. -/
 theorem fmtopts_lone_fill_no_repr :
     parse (render { fill := some [95], repr := some .hexLower }) 1 = .error (.unexpected 120) := by
   decide
+
+/-- `fmtopts_parse_wf`: every option set `parse` returns — for every format string and every
+grapheme length the segmenter may report — is well-formed. So `WF` in `fmtopts_roundtrip` excludes
+nothing the parser can produce. -/
+theorem fmtopts_parse_wf (s : List Nat) (g : Nat) (o : Opts) (h : parse s g = .ok o) : WF o :=
+  Lemmas.parse_wf s g o h
+
+/-- Non-vacuity: inputs that walk through every arm (`_<08.3x`: fill, alignment, zero fill
+overriding the fill, width, precision, representation). -/
+example : parse [95, 60, 48, 56, 46, 51, 120] 1
+    = .ok { fill := some [48], align := .left, minWidth := some 8, precision := some 3, repr := some .hexLower } := by
+  decide
+
+/-- `fmtopts_reparse_stable`: what the formatter does to a placeholder — parse the options of the
+source, render them, and the result is parsed again — gives the same options, for EVERY format
+string the parser accepts (clause (2) of the property for format options, proved rather than
+tested). -/
+theorem fmtopts_reparse_stable (s : List Nat) (g g' : Nat) (o : Opts)
+    (h : parse s g = .ok o) (hg : GraphemeOk o g') : parse (render o) g' = .ok o :=
+  Lemmas.roundtrip o g' (Lemmas.parse_wf s g o h) hg
+
+/-- `fmtopts_render_idempotent`: formatting a second time leaves the option text unchanged
+(clause (5) for format options): `render (parse (render (parse s))) = render (parse s)`. -/
+theorem fmtopts_render_idempotent (s : List Nat) (g g' : Nat) (o : Opts)
+    (h : parse s g = .ok o) (hg : GraphemeOk o g') :
+    ∃ o', parse (render o) g' = .ok o' ∧ render o' = render o :=
+  ⟨o, fmtopts_reparse_stable s g g' o h hg, rfl⟩
+
+/-- `fmtopts_render_injective`: two well-formed option sets with the same rendering are equal —
+no two meanings share a canonical spelling. -/
+theorem fmtopts_render_injective (o₁ o₂ : Opts) (g : Nat) (h₁ : WF o₁) (h₂ : WF o₂)
+    (hg₁ : GraphemeOk o₁ g) (hg₂ : GraphemeOk o₂ g) (h : render o₁ = render o₂) : o₁ = o₂ := by
+  have e₁ := Lemmas.roundtrip o₁ g h₁ hg₁
+  have e₂ := Lemmas.roundtrip o₂ g h₂ hg₂
+  rw [h] at e₁
+  rw [e₁] at e₂
+  exact Except.ok.inj e₂
+
+/-- `fmtopts_canonical_fixpoint`: on canonical strings (`render o`, `o` well-formed) `render ∘ parse`
+is the identity. -/
+theorem fmtopts_canonical_fixpoint (o : Opts) (g : Nat) (hwf : WF o) (hg : GraphemeOk o g) :
+    (parse (render o) g).map render = .ok (render o) := by
+  rw [Lemmas.roundtrip o g hwf hg]
+  rfl
+
+/-- When the fill is at most one code point the segmenter hypothesis is vacuous. -/
+theorem fmtopts_reparse_stable_simple (s : List Nat) (g g' : Nat) (o : Opts)
+    (h : parse s g = .ok o) (hf : ∀ f, o.fill = some f → f.length ≤ 1) :
+    parse (render o) g' = .ok o := by
+  apply fmtopts_reparse_stable s g g' o h
+  unfold GraphemeOk graphemeOk
+  cases hfl : o.fill with
+  | none => rfl
+  | some f =>
+    match f, hf f hfl with
+    | [], _ => rfl
+    | [_], _ => rfl
+    | _ :: _ :: _, hl => simp at hl
 
 /-! ## `source_slice` (since /repo b1042e7: token-boundary table, column arithmetic as fallback) -/
 
@@ -139,5 +199,88 @@ theorem srcslice_fallback_witness :
         = some [a 32, a 57]
       ∧ sourceSliceTextCol [line2] { start := lexPos 0 (line2.take 4), stop := lexPos 0 (line2.take 6) }
         = none := by decide
+
+
+/-! ## One layer of the layout engine: the single-line / break decision of `render_group`
+
+`Model/Layout.lean` models `FormatItem::{line_length, force_break, is_indented_block}`, the condition
+of the `if` in `render_group` and the single-line branch of `render`. The break logic and the builder
+(Ast → item tree) are not modelled, so nothing here is a statement about `format` as a whole. -/
+
+section Layout
+open KotoVerif.Layout
+
+/-- `layout_measure_exact`: for an item tree whose single-line rendering is one line (no forcing
+break, line break, multi-line text or error anywhere), the length `line_length()` measures and the
+width the single-line branch emits differ exactly by the `OptionalChar`s (measured, not emitted)
+and the `SpaceOrReturn` breaks (emitted as a space, measured as 0). -/
+theorem layout_measure_exact (is : Items) (h : flatOneLineItems is = true) :
+    lineLengthItems is + returnSpacesItems is = flatWidthItems is + optWidthItems is :=
+  LayoutLemmas.measure_items is h
+
+/-- `layout_flat_within_limit`: a group that takes the single-line branch at column `col` ends at
+most `returnSpaces` columns beyond `line_length` — within the limit when it has no `SpaceOrReturn`. -/
+theorem layout_flat_within_limit (lineLen col : Nat) (is : Items) (h : flatOneLineItems is = true)
+    (hcol : col ≤ lineLen) (hb : broken lineLen col is = false) :
+    col + flatWidthItems is ≤ lineLen + returnSpacesItems is := by
+  have hm := LayoutLemmas.measure_items is h
+  rw [LayoutLemmas.broken_eq_tooLong lineLen col is h] at hb
+  simp [tooLong] at hb
+  omega
+
+/-- `layout_nested_flat`: when a group takes the single-line branch, every nested group — rendered
+by `render_group` again at the same `column` — takes it too, at every depth: the single-line branch
+really emits one line. -/
+theorem layout_nested_flat (lineLen col : Nat) (is : Items) (h : flatOneLineItems is = true)
+    (hb : broken lineLen col is = false) : nestedFlatItems lineLen col is = true := by
+  rw [LayoutLemmas.broken_eq_tooLong lineLen col is h] at hb
+  simp [tooLong] at hb
+  exact LayoutLemmas.nested_items lineLen col is h hb
+
+/-- `layout_decision_stable` (group-level idempotence): without `OptionalChar`s and `SpaceOrReturn`s
+the decision for a one-line tree is the decision for the single piece of text it emits — reading
+the emitted line back as text of that width, at the same column and options, gives the same answer. -/
+theorem layout_decision_stable (lineLen col : Nat) (is : Items) (h : flatOneLineItems is = true)
+    (ho : optWidthItems is = 0) (hr : returnSpacesItems is = 0) :
+    broken lineLen col is = broken lineLen col (.cons (.str (flatWidthItems is) 1) .nil) := by
+  have hm := LayoutLemmas.measure_items is h
+  have h2 : flatOneLineItems (.cons (.str (flatWidthItems is) 1) .nil) = true := by
+    simp [flatOneLineItems, flatOneLine]
+  rw [LayoutLemmas.broken_eq_tooLong lineLen col is h,
+    LayoutLemmas.broken_eq_tooLong lineLen col _ h2]
+  simp only [tooLong, lineLengthItems]
+  have : lineLengthItems is = flatWidthItems is := by omega
+  simp [this]
+
+/-- `layout_decision_monotone`: a one-line tree that fits keeps fitting with more room. -/
+theorem layout_decision_monotone (lineLen lineLen' col col' : Nat) (is : Items)
+    (h : flatOneLineItems is = true) (hb : broken lineLen col is = false)
+    (hl : lineLen ≤ lineLen') (hc : col' ≤ col) : broken lineLen' col' is = false := by
+  rw [LayoutLemmas.broken_eq_tooLong _ _ is h] at hb ⊢
+  simp [tooLong] at hb ⊢
+  omega
+
+/-- Non-vacuity: `x = 1` as the tree the builder makes for an assignment. -/
+example :
+    let is : Items := .cons (.str 1 1) (.cons (.brk .spaceOrIndentIfNecessary) (.cons (.char 1)
+      (.cons (.brk .spaceOrIndentIfNecessary) (.cons (.str 1 1) .nil))))
+    flatOneLineItems is = true ∧ broken 100 0 is = false ∧ lineLengthItems is = 5
+      ∧ flatWidthItems is = 5 := by decide
+
+/-- The two hypotheses of `layout_decision_stable` / the slack in `layout_flat_within_limit` are real
+(both replayed on the formatter): `from abcd import defg` is 21 columns wide but measures 20, so it
+stays on one line at line_length 20; `[1, 2]` is 6 columns wide but measures 7 (the optional
+trailing comma), so at line_length 6 it is broken although it would fit. -/
+theorem layout_measure_witnesses :
+    let imp : Items := .cons (.str 4 1) (.cons (.brk .spaceOrIndent) (.cons (.str 4 1)
+      (.cons (.brk .spaceOrReturn) (.cons (.str 6 1) (.cons (.brk .spaceOrIndent)
+      (.cons (.group (.cons (.str 4 1) .nil)) .nil))))))
+    let lst : Items := .cons (.char 1) (.cons (.brk .maybeIndent) (.cons (.str 1 1) (.cons (.char 1)
+      (.cons (.brk .spaceOrIndentIfNecessary) (.cons (.str 1 1) (.cons (.optChar 1)
+      (.cons (.brk .maybeReturn) (.cons (.char 1) .nil))))))))
+    (broken 20 0 imp = false ∧ flatWidthItems imp = 21)
+      ∧ (broken 6 0 lst = true ∧ flatWidthItems lst = 6 ∧ broken 7 0 lst = false) := by decide
+
+end Layout
 
 end KotoVerif.C11
